@@ -26,6 +26,9 @@ pub enum CompilerError {
     InvalidLiteralType(Literal, Type),
     /// The constant was declared in the program but not provided during compilation.
     MissingConstant(String, String, MetaInfo),
+    /// The parameters of the specified function do not consist of any bits, but a circuit needs at
+    /// least one input bit.
+    NoInputBits(String),
 }
 
 impl PartialOrd for CompilerError {
@@ -39,6 +42,14 @@ impl Ord for CompilerError {
         match (self, other) {
             (CompilerError::FnNotFound(fn1), CompilerError::FnNotFound(fn2)) => fn1.cmp(fn2),
             (CompilerError::FnNotFound(_), _) => std::cmp::Ordering::Less,
+            (CompilerError::NoInputBits(fn1), CompilerError::NoInputBits(fn2)) => fn1.cmp(fn2),
+            (CompilerError::NoInputBits(_), CompilerError::FnNotFound(_)) => {
+                std::cmp::Ordering::Greater
+            }
+            (CompilerError::NoInputBits(_), _) => std::cmp::Ordering::Less,
+            (CompilerError::InvalidLiteralType(_, _), CompilerError::NoInputBits(_)) => {
+                std::cmp::Ordering::Greater
+            }
             (CompilerError::InvalidLiteralType(_, _), CompilerError::FnNotFound(_)) => {
                 std::cmp::Ordering::Greater
             }
@@ -69,6 +80,9 @@ impl std::fmt::Display for CompilerError {
             }
             CompilerError::MissingConstant(party, identifier, _) => f.write_fmt(format_args!(
                 "The constant {party}::{identifier} was declared in the program but never provided"
+            )),
+            CompilerError::NoInputBits(fn_name) => f.write_fmt(format_args!(
+                "The parameters of '{fn_name}' do not consist of any bits, a circuit needs at least one input bit"
             )),
         }
     }
@@ -226,6 +240,10 @@ impl TypedProgram {
                 input_gates.push(type_size);
                 params.push((param.name.clone(), wires));
             }
+        }
+        if input_gates.iter().all(|bits| *bits == 0) {
+            // (the wires with the constant values 0 and 1 are computed from the first input bit)
+            return Err(vec![CompilerError::NoInputBits(fn_name.to_string())]);
         }
         let builder_opts = CircuitBuilderOptions {
             cache_gates: opts.optimize_duplicate_gates,
